@@ -712,7 +712,51 @@ class _Analyzer:
             return {r}
         return set()  # rooted at a callee parameter that is not bound here (default value): nothing of ours
 
+    def env_at(self, cfg, rd_in, n):
+        """local alias environment at CFG node n, restricted to the definitions that reach it (strong updates for plain
+        rebinding such as `x = x.copy()`); names without a reaching definition keep their flow-insensitive aliases"""
+        base = self._base_env if hasattr(self, "_base_env") else self.env
+        env = dict(base)
+        tenv = dict(self._base_types if hasattr(self, "_base_types") else self.types)
+        by_name = {}
+        for (x, d) in rd_in.get(n, ()):
+            by_name.setdefault(x, set()).add(d)
+        saved_env, saved_types, saved_s = self.env, self.types, self.s
+        self.env, self.types = base, (self._base_types if hasattr(self, "_base_types") else self.types)
+        self.s = Summary()
+        try:
+            for x, defs in by_name.items():
+                if x not in base:
+                    continue
+                refs, types = set(), set()
+                precise = True
+                for d in defs:
+                    if d == cfg.entry:
+                        refs.add(Ref(x))
+                        types |= set(self.types.get(x, ()))
+                        continue
+                    st = cfg.stmt[d]
+                    if cfg.kind[d] == "stmt" and isinstance(st, ast.Assign) and len(st.targets) == 1 and isinstance(st.targets[0], ast.Name) \
+                            and st.targets[0].id == x:
+                        r, t = self.expr_t(st.value)
+                        refs |= set(r) if r else {Ref(FRESH)}
+                        types |= t
+                    else:
+                        precise = False
+                        break
+                if precise and refs:
+                    env[x] = refs
+                    if types:
+                        tenv[x] = types
+        finally:
+            self.env, self.types, self.s = saved_env, saved_types, saved_s
+        return env, tenv
+
+    shallow = False  # when set, effects of in-repo callees are not merged in (only this function's own statements count)
+
     def _apply(self, sub, binding, node, is_getter=False, getter=None, recv=()):
+        if self.shallow and not is_getter:
+            return
         lazy = {(r.root, r.path) for r in sub.ret} if is_getter else set()
         for (root, path, tag) in sub.reads:
             if tag == "value" and (root, path) in lazy:
